@@ -32,6 +32,7 @@ K04 = [
     Skeleton("i10_from_import_several_names", {"mod1.py": "{0} = 3\ndef {1}({2}):\n    return {2} + {0}\ndef other():\n    return 7\n", "main.py": "from mod1 import {1}, other\n{3} = 2\nprint({1}({3}), other())\n", "user2.py": "from mod1 import other, {1}\nval = {1}(1) + other()\n"}, entry="main.py"),
     Skeleton("i11_call_on_continuation_line", {"main.py": "def {0}({1}):\n    {2} = {1} * 2\n    return {2}\n{3} = [\n    1,\n        {0}(3),\n]\nprint({3})\n"}),
     Skeleton("i12_method_dotted_receiver_separate_statements", {"main.py": "class Inner:\n    def __init__(self):\n        self.val = 3\n    def {0}(self, {1}, {2}=1):\n        return [self.val, {1}, {2}]\nclass Holder:\n    def __init__(self):\n        self.inner = Inner()\n{3} = Holder()\nprint({3}.inner.{0}(4))\nprint({3}.inner.{0}(5, {2}=6))\n"}),
+    Skeleton("i13_variable_augmented_later", {"main.py": "def fun({0}):\n    {1} = {0} + 1\n    {1} += 2\n    {2} = [{1}, {0}]\n    return {2}\nprint(fun(1))\n"}),
     Skeleton("i08_method_dotted_receiver", {"main.py": "class Inner:\n    def __init__(self):\n        self.val = 3\n    def {0}(self, {1}, {2}=1):\n        return [self.val, {1}, {2}]\nclass Holder:\n    def __init__(self):\n        self.inner = Inner()\n{3} = Holder()\nprint({3}.inner.{0}(4), {3}.inner.{0}(5, {2}=6))\n"}),
 ]
 
